@@ -381,6 +381,7 @@ func (d *Datastore) TransactionSet(ctx context.Context, transactionId string, tr
 	var err error
 
 	// try locking the datastore if it is locked return the specific ErrDatastoreLocked error.
+	verifYield("ds.trylock.set")
 	if !d.dmutex.TryLock() {
 		return nil, ErrDatastoreLocked
 	}
@@ -423,6 +424,7 @@ func (d *Datastore) TransactionSet(ctx context.Context, transactionId string, tr
 				locked = false
 			}
 			time.Sleep(time.Millisecond * 200)
+			verifYield("ds.trylock.set")
 			locked = d.dmutex.TryLock()
 		}
 		if transactionGuard != nil {
@@ -500,6 +502,7 @@ func cacheUpdateToSdcpbUpdate(lvs tree.LeafVariantSlice) ([]*sdcpb.Update, error
 func (d *Datastore) TransactionConfirm(ctx context.Context, transactionId string) error {
 	log.Infof("Transaction %s - Confirm", transactionId)
 
+	verifYield("ds.trylock.confirm")
 	if !d.dmutex.TryLock() {
 		return ErrDatastoreLocked
 	}
@@ -511,6 +514,7 @@ func (d *Datastore) TransactionConfirm(ctx context.Context, transactionId string
 func (d *Datastore) TransactionCancel(ctx context.Context, transactionId string) error {
 	log.Infof("Transaction %s - Cancel", transactionId)
 
+	verifYield("ds.trylock.cancel")
 	if !d.dmutex.TryLock() {
 		return ErrDatastoreLocked
 	}
